@@ -87,7 +87,11 @@ func boundaryValues(width int, cur uint64) []uint64 {
 	vals := []uint64{0, 1, 2, max, max - 1, sign, sign - 1, sign + 1, cur + 1, cur - 1, cur ^ 1, cur << 1, 0x7fffffff, 0x80000000, 0xffffffff, 0x100000000}
 	if width == 4 {
 		// products with 128 (entry size) / count that overflow 31/32/63 bits
-		vals = append(vals, 0x01000000, 0x02000000, 0x00ffffff, 0x00800000, 0x04000000, 3, 127, 129, 256, 4096, 65536)
+		vals = append(vals, 0x01000000, 0x02000000, 0x00ffffff, 0x00800000, 0x04000000, 3, 4, 5, 6, 7, 8, 9, 127, 129, 256, 4096, 65536)
+	}
+	if width <= 2 {
+		// small counts: one past the capacity of small fixed arrays (4 extents in an inode, 8/16 slots, ...)
+		vals = append(vals, 3, 4, 5, 6, 7, 8, 9, 16, 17)
 	}
 	if width == 8 {
 		vals = append(vals, 1<<53, 1<<55, 1<<54+1, 0x7fffffffffffffff/512, 0x7fffffffffffffff/512+1, 1<<40)
